@@ -52,6 +52,7 @@ class Outcome:
         self.timer = Timer()
         self.known = load_known(prop)
         self.violations = []  # (clause, case-name, replay path)
+        self.known_det_hits = {}  # maintenance only (tools/regen_known_generic.sh): witness keys of the deterministic corpus per known finding
         self.known_hits = {}  # finding id -> list of case names
         self.cov = {
             "evaluations": 0,
@@ -113,6 +114,8 @@ class Outcome:
         e = self._match_known(clause, name, origin, set(facts))
         if e is not None:
             self.known_hits.setdefault(e["id"], []).append("%s ## %s" % (clause, name))
+            if origin == "det":
+                self.known_det_hits.setdefault(e["id"], []).append(witness_key(name, clause))
             return False
         h = hashlib.sha256((clause + "|" + name).encode()).hexdigest()[:16]
         path = os.path.join(REPLAYS, self.prop, h + ".json")
@@ -156,6 +159,11 @@ class Outcome:
             with open(os.path.join(REPLAYS, self.prop, "unlisted.txt"), "w") as f:
                 for clause, name, _ in self.violations:
                     f.write(witness_key(name, clause) + "\n")
+        if os.environ.get("VERIF_DUMP_KNOWN"):
+            # maintenance: never set by a registered command; the lists are reviewed and committed by hand
+            for kid, keys in self.known_det_hits.items():
+                with open(os.environ["VERIF_DUMP_KNOWN"] + kid + ".txt", "w") as f:
+                    f.write("".join(x + "\n" for x in sorted(set(keys))))
         cov["known_finding_lines"] = known_lines
         cov["model_drift"] = self.drift[:20]
         cov["violating_clauses"] = sorted({c for c, _, _ in self.violations})
